@@ -1,4 +1,588 @@
-(* C07 lemmas *)
+(* C07 lemmas: bilinear forms over Q; completion of the square (general dimension);
+   finite-horizon optimality by induction on the horizon; stationary fixed point;
+   dynamics / policy order of compute_sequence (any Num instance). *)
 From Coq Require Import ZArith QArith List Bool Lia Lqa Setoid Morphisms.
 From QE Require Import Base.Num Base.LinAlg Base.Gauss C06.Model C07.Model.
 Import ListNotations.
+
+(* ====================================================================== *)
+(* compute_sequence: dynamics and order of the policies (every Num instance, binary64 included) *)
+Section Simulate.
+Context {T : Type} `{Num T}.
+Variables (n k j : nat).
+Variables (A B C : list (list T)).
+
+Lemma pop_spec {X} (l : list X) x r : pop l = Some (x, r) -> l = r ++ [x].
+Proof.
+  unfold pop. destruct (rev l) as [|y r0] eqn:E; [discriminate|].
+  intros E2. injection E2 as <- <-.
+  rewrite <- (rev_involutive l), E. reflexivity.
+Qed.
+
+(* x_0 = x; u_t = -F_t x_t with F_t = policies[len-1-t] (the policy appended LAST is used FIRST);
+   x_{t+1} = (A x_t + B u_t) + C w_{t+1} *)
+Lemma lq_simulate_spec steps : forall (policies : list (list (list T))) ws x xs us,
+  lq_simulate n k j A B C steps policies ws x = Some (xs, us) ->
+  (steps <= length policies)%nat /\ (steps <= length ws)%nat /\
+  length xs = S steps /\ length us = steps /\ nth 0 xs [] = x /\
+  forall t, (t < steps)%nat ->
+    nth t us [] = vneg k (mvmul k n (nth (length policies - 1 - t) policies []) (nth t xs [])) /\
+    nth (S t) xs [] = vadd n (vadd n (mvmul n n A (nth t xs [])) (mvmul n k B (nth t us [])))
+                             (mvmul n j C (nth t ws [])).
+Proof.
+  induction steps as [|s IH]; intros policies ws x xs us Hs; simpl in Hs.
+  - injection Hs as <- <-. simpl. split; [lia|]. split; [lia|]. split; [reflexivity|]. split; [reflexivity|].
+    split; [reflexivity|]. intros t Hlt. lia.
+  - destruct (pop policies) as [[F rest]|] eqn:Ep; [|discriminate].
+    destruct ws as [|w ws']; [discriminate|].
+    destruct (lq_simulate n k j A B C s rest ws' _) as [[xs' us']|] eqn:Er; [|discriminate].
+    injection Hs as <- <-.
+    apply pop_spec in Ep. subst policies.
+    destruct (IH _ _ _ _ _ Er) as [Hl1 [Hl2 [Hx [Hu [H0 Ht]]]]].
+    rewrite app_length. simpl length.
+    split; [lia|]. split; [lia|]. split; [lia|]. split; [lia|]. split; [reflexivity|].
+    intros t Hlt. destruct t as [|t'].
+    + replace (length rest + 1 - 1 - 0)%nat with (length rest) by lia.
+      rewrite nth_middle. simpl. rewrite H0. split; reflexivity.
+    + replace (length rest + 1 - 1 - S t')%nat with (length rest - 1 - t')%nat by lia.
+      rewrite app_nth1 by lia. simpl. apply Ht. lia.
+Qed.
+End Simulate.
+
+(* ====================================================================== *)
+(* bilinear forms over Q *)
+Local Open Scope Q_scope.
+
+Lemma bform_Q n m x (A : Qmat) y :
+  bform n m x A y == sumQ n (fun i => vget x i * sumQ m (fun l => get A i l * vget y l)).
+Proof.
+  unfold bform. rewrite vdot_Q. apply sumQ_ext. intros i Hi.
+  rewrite vget_mvmul by assumption. reflexivity.
+Qed.
+
+#[global] Instance bform_proper n m : Proper (veq n ==> meq n m ==> veq m ==> Qeq) (bform n m).
+Proof.
+  intros x x' Ex A A' EA y y' Ey. rewrite !bform_Q. apply sumQ_ext; intros i Hi.
+  rewrite (Ex i Hi). apply Qmult_comp; [reflexivity|]. apply sumQ_ext; intros l Hl.
+  rewrite (EA i l Hi Hl), (Ey l Hl). reflexivity.
+Qed.
+
+#[global] Instance mvmul_proper n m : Proper (meq n m ==> veq m ==> veq n) (mvmul n m).
+Proof.
+  intros A A' EA y y' Ey i Hi. rewrite !vget_mvmul by assumption.
+  apply sumQ_ext; intros l Hl. rewrite (EA i l Hi Hl), (Ey l Hl). reflexivity.
+Qed.
+
+#[global] Instance vadd_proper n : Proper (veq n ==> veq n ==> veq n) (vadd n).
+Proof. intros x x' Ex y y' Ey i Hi. rewrite !vget_vadd by assumption. now rewrite (Ex i Hi), (Ey i Hi). Qed.
+
+Lemma bform_vadd_l n m x x' (A : Qmat) y :
+  bform n m (vadd n x x') A y == bform n m x A y + bform n m x' A y.
+Proof.
+  rewrite !bform_Q, <- sumQ_add. apply sumQ_ext; intros i Hi.
+  rewrite vget_vadd by assumption. ring.
+Qed.
+
+Lemma bform_vadd_r n m x (A : Qmat) y y' :
+  bform n m x A (vadd m y y') == bform n m x A y + bform n m x A y'.
+Proof.
+  rewrite !bform_Q, <- sumQ_add. apply sumQ_ext; intros i Hi.
+  rewrite (sumQ_ext m _ (fun l => get A i l * vget y l + get A i l * vget y' l))
+    by (intros l Hl; rewrite vget_vadd by assumption; ring).
+  rewrite sumQ_add. ring.
+Qed.
+
+Lemma bform_madd n m x (A B : Qmat) y :
+  bform n m x (madd n m A B) y == bform n m x A y + bform n m x B y.
+Proof.
+  rewrite !bform_Q, <- sumQ_add. apply sumQ_ext; intros i Hi.
+  rewrite (sumQ_ext m _ (fun l => get A i l * vget y l + get B i l * vget y l))
+    by (intros l Hl; rewrite get_madd by assumption; ring).
+  rewrite sumQ_add. ring.
+Qed.
+
+Lemma bform_msub n m x (A B : Qmat) y :
+  bform n m x (msub n m A B) y == bform n m x A y - bform n m x B y.
+Proof.
+  rewrite !bform_Q, <- sumQ_sub. apply sumQ_ext; intros i Hi.
+  rewrite (sumQ_ext m _ (fun l => get A i l * vget y l - get B i l * vget y l))
+    by (intros l Hl; rewrite get_msub by assumption; ring).
+  rewrite sumQ_sub. ring.
+Qed.
+
+Lemma bform_mscale n m c x (A : Qmat) y :
+  bform n m x (mscale n m c A) y == c * bform n m x A y.
+Proof.
+  rewrite !bform_Q, <- sumQ_scale_l. apply sumQ_ext; intros i Hi.
+  rewrite (sumQ_ext m _ (fun l => c * (get A i l * vget y l)))
+    by (intros l Hl; rewrite get_mscale by assumption; ring).
+  rewrite sumQ_scale_l. ring.
+Qed.
+
+Lemma bform_tr n m x (A : Qmat) y :
+  bform n m x A y == bform m n y (mtr n m A) x.
+Proof.
+  rewrite !bform_Q.
+  rewrite (sumQ_ext n _ (fun i => sumQ m (fun l => vget x i * get A i l * vget y l)))
+    by (intros i Hi; rewrite <- sumQ_scale_l; apply sumQ_ext; intros; ring).
+  rewrite sumQ_exchange. apply sumQ_ext; intros l Hl.
+  rewrite <- sumQ_scale_l. apply sumQ_ext; intros i Hi.
+  rewrite get_mtr by assumption. ring.
+Qed.
+
+Lemma bform_mvmul_r n m p x (M B : Qmat) y :
+  bform n m x M (mvmul m p B y) == bform n p x (mmul n m p M B) y.
+Proof.
+  rewrite !bform_Q. apply sumQ_ext; intros i Hi.
+  apply Qmult_comp; [reflexivity|].
+  rewrite (sumQ_ext m _ (fun l => sumQ p (fun a => get M i l * get B l a * vget y a))).
+  2:{ intros l Hl. rewrite vget_mvmul by assumption. rewrite <- sumQ_scale_l.
+      apply sumQ_ext; intros; ring. }
+  rewrite sumQ_exchange. apply sumQ_ext; intros a Ha.
+  rewrite get_mmul by assumption. rewrite <- sumQ_scale_r. apply sumQ_ext; intros; ring.
+Qed.
+
+Lemma bform_mvmul_l n m p (A : Qmat) x (M : Qmat) y :
+  bform n m (mvmul n p A x) M y == bform p m x (mmul p n m (mtr n p A) M) y.
+Proof.
+  rewrite (bform_tr n m). rewrite bform_mvmul_r. rewrite (bform_tr m p).
+  apply bform_proper; try reflexivity.
+  rewrite mtr_mmul. rewrite mtr_mtr. reflexivity.
+Qed.
+
+Lemma bform_vzero_l n m (A : Qmat) y : bform n m (vzero n) A y == 0.
+Proof.
+  rewrite bform_Q. rewrite (sumQ_ext n _ (fun _ => 0)); [apply sumQ_zero|].
+  intros i Hi. unfold vzero. rewrite vget_vmk by assumption. change (@nzero Q NumQ) with 0. ring.
+Qed.
+
+Lemma bform_vzero_r n m x (A : Qmat) : bform n m x A (vzero m) == 0.
+Proof. rewrite bform_tr. apply bform_vzero_l. Qed.
+
+(* symmetric matrix: x' A y = y' A x *)
+Lemma bform_sym n x (A : Qmat) y : msym n A -> bform n n x A y == bform n n y A x.
+Proof. intros S. unfold msym in S. rewrite (bform_tr n n x A y). rewrite S. reflexivity. Qed.
+
+Lemma bform_mv2 n p q (A : Qmat) x (P B : Qmat) y :
+  bform n n (mvmul n p A x) P (mvmul n q B y)
+  == bform p q x (mmul p n q (mtr n p A) (mmul n n q P B)) y.
+Proof.
+  rewrite bform_mvmul_l, bform_mvmul_r. apply bform_proper; try reflexivity. apply mmul_assoc.
+Qed.
+
+(* ====================================================================== *)
+(* completion of the square, general dimension *)
+Section CompleteSquare.
+Variables (n k : nat) (beta : Q) (Qm Rm A B N P F : Qmat).
+Hypothesis HQ : msym k Qm.
+Hypothesis HP : msym n P.
+Hypothesis HF : meq k n (mmul k k n (lq_S1 n k beta Qm B P) F) (lq_S2 n k beta A B N P).
+
+Let MAA := mmul n n n (mtr n n A) (mmul n n n P A).
+Let MAB := mmul n n k (mtr n n A) (mmul n n k P B).
+Let MBA := mmul k n n (mtr n k B) (mmul n n n P A).
+Let MBB := mmul k n k (mtr n k B) (mmul n n k P B).
+Let S1 := lq_S1 n k beta Qm B P.
+Let S2 := lq_S2 n k beta A B N P.
+
+Lemma MAB_tr : meq k n (mtr n k MAB) MBA.
+Proof.
+  unfold MAB, MBA. unfold msym in HP.
+  rewrite (mtr_mmul n n k (mtr n n A) (mmul n n k P B)).
+  rewrite (mtr_mmul n n k P B). rewrite (mtr_mtr n n A). rewrite HP.
+  apply mmul_assoc.
+Qed.
+
+Lemma MBB_sym : msym k MBB.
+Proof.
+  unfold msym, MBB. unfold msym in HP.
+  rewrite (mtr_mmul k n k (mtr n k B) (mmul n n k P B)).
+  rewrite (mtr_mmul n n k P B). rewrite (mtr_mtr n k B). rewrite HP.
+  apply mmul_assoc.
+Qed.
+
+Lemma S1_sym : msym k S1.
+Proof.
+  pose proof MBB_sym as Hs. unfold msym in *. unfold S1, lq_S1. fold MBB.
+  rewrite mtr_madd, mtr_mscale. rewrite HQ, Hs. reflexivity.
+Qed.
+
+Definition lq_newP : Qmat :=
+  madd n n (msub n n Rm (mmul n k n (mtr k n S2) F)) (lq_S3 n beta A P).
+
+Theorem lq_complete_square_vec (x u : list Q) :
+  stage_cost n k Qm Rm N x u
+  + beta * qform n (vadd n (mvmul n n A x) (mvmul n k B u)) P
+  == qform n x lq_newP + qform k (vadd k u (mvmul k n F x)) S1.
+Proof.
+  unfold stage_cost, qform.
+  change (vdot n ?a (mvmul n n ?M ?b)) with (bform n n a M b).
+  change (vdot k ?a (mvmul k k ?M ?b)) with (bform k k a M b).
+  rewrite !nadd_Q, nmul_Q. change (@none_ Q NumQ) with 1.
+  (* left: expand (Ax+Bu)'P(Ax+Bu) *)
+  rewrite !bform_vadd_l, !bform_vadd_r. rewrite !(bform_mv2 n _ _ _ _ P).
+  fold MAA MAB MBA MBB.
+  assert (Ecross : bform n k x MAB u == bform k n u MBA x).
+  { rewrite (bform_tr n k x MAB u). apply bform_proper; try reflexivity. apply MAB_tr. }
+  rewrite Ecross.
+  (* right: x' P+ x *)
+  unfold lq_newP. rewrite bform_madd, bform_msub. unfold lq_S3. rewrite bform_mscale. fold MAA.
+  (* right: (u+Fx)' S1 (u+Fx) *)
+  assert (E1 : bform k k u S1 (mvmul k n F x) == bform k n u S2 x).
+  { rewrite bform_mvmul_r. apply bform_proper; try reflexivity. exact HF. }
+  assert (E2 : bform k k (mvmul k n F x) S1 u == bform k n u S2 x).
+  { rewrite (bform_sym k _ S1 u S1_sym). exact E1. }
+  assert (E3 : bform k k (mvmul k n F x) S1 (mvmul k n F x)
+               == bform n n x (mmul n k n (mtr k n S2) F) x).
+  { rewrite bform_mvmul_r.
+    assert (HF' : meq k n (mmul k k n S1 F) S2) by exact HF.
+    rewrite HF'.
+    rewrite bform_mvmul_l.
+    rewrite (bform_tr n n x (mmul n k n (mtr k n S2) F) x).
+    apply bform_proper; try reflexivity.
+    rewrite mtr_mmul, mtr_mtr. reflexivity. }
+  rewrite E1, E2, E3.
+  assert (E4 : bform k k u S1 u == bform k k u Qm u + beta * bform k k u MBB u).
+  { unfold S1, lq_S1. fold MBB. rewrite bform_madd, bform_mscale. reflexivity. }
+  assert (E5 : bform k n u S2 x == beta * bform k n u MBA x + bform k n u N x).
+  { unfold S2, lq_S2. fold MBA. rewrite bform_madd, bform_mscale. reflexivity. }
+  rewrite E4, E5. ring.
+Qed.
+End CompleteSquare.
+
+Section NewPSym.
+Variables (n k : nat) (beta : Q) (Qm Rm A B N P F : Qmat).
+Hypothesis HQ : msym k Qm.
+Hypothesis HR : msym n Rm.
+Hypothesis HP : msym n P.
+Hypothesis HF : meq k n (mmul k k n (lq_S1 n k beta Qm B P) F) (lq_S2 n k beta A B N P).
+
+Lemma S2F_sym : msym n (mmul n k n (mtr k n (lq_S2 n k beta A B N P)) F).
+Proof.
+  pose proof (S1_sym n k beta Qm B P HQ HP) as HS1. unfold msym in HS1.
+  set (S1 := lq_S1 n k beta Qm B P) in *. set (S2 := lq_S2 n k beta A B N P) in *.
+  assert (E : meq n n (mmul n k n (mtr k n S2) F) (mmul n k n (mmul n k k (mtr k n F) S1) F)).
+  { rewrite <- HF. rewrite (mtr_mmul k k n S1 F). rewrite HS1. reflexivity. }
+  unfold msym. rewrite E.
+  rewrite (mtr_mmul n k n (mmul n k k (mtr k n F) S1) F).
+  rewrite (mtr_mmul n k k (mtr k n F) S1). rewrite (mtr_mtr k n F). rewrite HS1.
+  symmetry. apply mmul_assoc.
+Qed.
+
+Lemma S3_sym : msym n (lq_S3 n beta A P).
+Proof.
+  unfold msym, lq_S3. unfold msym in HP.
+  rewrite mtr_mscale.
+  rewrite (mtr_mmul n n n (mtr n n A) (mmul n n n P A)).
+  rewrite (mtr_mmul n n n P A). rewrite (mtr_mtr n n A). rewrite HP.
+  rewrite mmul_assoc. reflexivity.
+Qed.
+
+Lemma lq_newP_sym : msym n (lq_newP n k beta Rm A B N P F).
+Proof.
+  pose proof S2F_sym as H1. pose proof S3_sym as H2. unfold msym in *.
+  unfold lq_newP. rewrite mtr_madd, mtr_msub. rewrite HR, H1, H2. reflexivity.
+Qed.
+End NewPSym.
+
+(* ====================================================================== *)
+(* structure of the backward recursion (every Num instance) *)
+Section Recursion.
+Context {T : Type} `{Num T}.
+Variables (n k j : nat) (beta : T) (Qm Rm A B C N : list (list T)).
+Notation upd := (update_values n k j beta Qm Rm A B C N).
+Notation recur := (lq_recursion n k j beta Qm Rm A B C N).
+
+Lemma lq_recursion_S T_ P d pols :
+  recur (S T_) P d pols =
+  match upd P d with None => None | Some (F, P', d') => recur T_ P' d' (pols ++ [F]) end.
+Proof. reflexivity. Qed.
+
+(* the LAST update (the one that produces the period-0 policy) peeled off *)
+Lemma lq_recursion_last T_ : forall P d pols,
+  recur (S T_) P d pols =
+  match recur T_ P d pols with
+  | None => None
+  | Some (pols', P', d') =>
+    match upd P' d' with None => None | Some (F, P'', d'') => Some (pols' ++ [F], P'', d'') end
+  end.
+Proof.
+  induction T_; intros P d pols.
+  - rewrite lq_recursion_S. simpl. destruct (upd P d) as [[[F P'] d']|]; reflexivity.
+  - rewrite lq_recursion_S. rewrite (lq_recursion_S T_).
+    destruct (upd P d) as [[[F P'] d']|]; [|reflexivity]. apply IHT_.
+Qed.
+End Recursion.
+
+(* ====================================================================== *)
+(* finite horizon: the recursion returns the exact minimum of the T-period programme (deterministic part) *)
+Section FiniteHorizon.
+Variables (n k j : nat) (beta : Q) (Qm Rm A B C N : Qmat).
+Hypothesis HQ : msym k Qm.
+Hypothesis HR : msym n Rm.
+Hypothesis Hbeta : 0 <= beta.
+Notation upd := (update_values n k j beta Qm Rm A B C N).
+Notation recur := (lq_recursion n k j beta Qm Rm A B C N).
+Notation hcost := (horizon_cost n k beta Qm Rm A B N).
+
+Lemma update_values_spec P d F P' d' :
+  upd P d = Some (F, P', d') ->
+  meq k n (mmul k k n (lq_S1 n k beta Qm B P) F) (lq_S2 n k beta A B N P) /\
+  P' = lq_newP n k beta Rm A B N P F /\
+  d' == beta * (d + mtrace n (mmul n n n P (mmul n j n C (mtr n j C)))).
+Proof.
+  unfold update_values. destruct (solve k n _ _) as [F0|] eqn:Es; [|discriminate].
+  intros E. injection E as <- <- <-.
+  split; [apply (solve_correct _ _ _ _ _ Es)|]. split; [reflexivity|].
+  rewrite nmul_Q, nadd_Q. reflexivity.
+Qed.
+
+Notation cl_controls := (closed_loop_controls n k A B).
+
+Lemma hcost_cons Rf x u us :
+  hcost Rf x (u :: us)
+  == stage_cost n k Qm Rm N x u + beta * hcost Rf (vadd n (mvmul n n A x) (mvmul n k B u)) us.
+Proof.
+  change (hcost Rf x (u :: us))
+    with (nadd (stage_cost n k Qm Rm N x u)
+               (nmul beta (hcost Rf (vadd n (mvmul n n A x) (mvmul n k B u)) us))).
+  rewrite nadd_Q, nmul_Q. reflexivity.
+Qed.
+
+Lemma feedback_cancels F x : veq k (vadd k (vneg k (mvmul k n F x)) (mvmul k n F x)) (vzero k).
+Proof.
+  intros i Hi. rewrite vget_vadd, vget_vneg by assumption.
+  unfold vzero. rewrite vget_vmk by assumption. change (@nzero Q NumQ) with 0. ring.
+Qed.
+
+Theorem lq_finite_horizon T_ : forall Rf pols P d,
+  msym n Rf ->
+  recur T_ Rf 0 [] = Some (pols, P, d) ->
+  (forall t polst Pt dt, (t < T_)%nat -> recur t Rf 0 [] = Some (polst, Pt, dt) ->
+      forall v, 0 <= qform k v (lq_S1 n k beta Qm B Pt)) ->
+  msym n P /\ length pols = T_ /\
+  (forall x us, length us = T_ -> qform n x P <= hcost Rf x us) /\
+  (forall x, hcost Rf x (cl_controls (rev pols) x) == qform n x P).
+Proof.
+  induction T_ as [|T' IH]; intros Rf pols P d HRf Hrec Hpsd.
+  - simpl in Hrec. injection Hrec as <- <- <-.
+    split; [exact HRf|]. split; [reflexivity|]. split.
+    + intros x us Hlen. destruct us; [|discriminate]. simpl. apply Qle_refl.
+    + intros x. simpl. reflexivity.
+  - rewrite lq_recursion_last in Hrec.
+    destruct (recur T' Rf 0 []) as [[[pols' P'] d']|] eqn:Er; [|discriminate].
+    destruct (upd P' d') as [[[F P''] d'']|] eqn:Eu; [|discriminate].
+    injection Hrec as <- <- <-.
+    assert (Hpsd' : forall t polst Pt dt, (t < T')%nat -> recur t Rf 0 [] = Some (polst, Pt, dt) ->
+                    forall v, 0 <= qform k v (lq_S1 n k beta Qm B Pt)).
+    { intros t polst Pt dt Ht. apply Hpsd. lia. }
+    destruct (IH Rf pols' P' d' HRf Er Hpsd') as [HsymP' [Hlen [Hlow Heq]]].
+    destruct (update_values_spec _ _ _ _ _ Eu) as [HF [HP'' _]]. subst P''.
+    pose proof (Hpsd T' pols' P' d' ltac:(lia) Er) as HS1psd.
+    split; [apply (lq_newP_sym n k beta Qm Rm A B N P' F HQ HR HsymP' HF)|].
+    split; [rewrite app_length; simpl; lia|]. split.
+    + intros x us Hl. destruct us as [|u us']; [discriminate|].
+      rewrite hcost_cons.
+      pose proof (lq_complete_square_vec n k beta Qm Rm A B N P' F HQ HsymP' HF x u) as Sq.
+      pose proof (Hlow (vadd n (mvmul n n A x) (mvmul n k B u)) us' ltac:(simpl in Hl; lia)) as L.
+      pose proof (HS1psd (vadd k u (mvmul k n F x))) as Pos.
+      nra.
+    + intros x. rewrite rev_app_distr. simpl rev. simpl app. simpl closed_loop_controls.
+      rewrite hcost_cons.
+      set (u := vneg k (mvmul k n F x)).
+      rewrite (Heq (vadd n (mvmul n n A x) (mvmul n k B u))).
+      pose proof (lq_complete_square_vec n k beta Qm Rm A B N P' F HQ HsymP' HF x u) as Sq.
+      assert (Z : qform k (vadd k u (mvmul k n F x)) (lq_S1 n k beta Qm B P') == 0).
+      { change (qform k ?a ?M) with (bform k k a M a).
+        unfold u. rewrite (feedback_cancels F x). apply bform_vzero_l. }
+      rewrite Z in Sq. lra.
+Qed.
+End FiniteHorizon.
+
+(* ====================================================================== *)
+(* stationary values: a solution of the (discounted) Riccati equation is a fixed point of update_values *)
+Section Stationary.
+Variables (n k j : nat) (beta : Q) (Qm Rm A B C N : Qmat).
+Hypothesis HQ : msym k Qm.
+
+Lemma S2F_unique P F0 F :
+  msym n P ->
+  meq k n (mmul k k n (lq_S1 n k beta Qm B P) F0) (lq_S2 n k beta A B N P) ->
+  meq k n (mmul k k n (lq_S1 n k beta Qm B P) F) (lq_S2 n k beta A B N P) ->
+  meq n n (mmul n k n (mtr k n (lq_S2 n k beta A B N P)) F)
+          (mmul n k n (mtr k n (lq_S2 n k beta A B N P)) F0).
+Proof.
+  intros HP HF0 HF.
+  pose proof (S1_sym n k beta Qm B P HQ HP) as HS1. unfold msym in HS1.
+  pose proof (S2F_sym n k beta Qm A B N P F0 HQ HP HF0) as Hsym. unfold msym in Hsym.
+  set (S1 := lq_S1 n k beta Qm B P) in *. set (S2 := lq_S2 n k beta A B N P) in *.
+  (* S2'F = (F0'S1)F = F0'(S1 F) = F0'S2 = (S2'F0)' = S2'F0 *)
+  transitivity (mmul n k n (mtr k n F0) S2).
+  - rewrite <- HF0 at 1. rewrite (mtr_mmul k k n S1 F0). rewrite HS1.
+    rewrite mmul_assoc. rewrite HF. reflexivity.
+  - rewrite <- Hsym. rewrite (mtr_mmul n k n (mtr k n S2) F0). rewrite (mtr_mtr k n S2). reflexivity.
+Qed.
+
+Theorem lq_stationary_fixed_point P F0 F d :
+  msym n P ->
+  meq k n (mmul k k n (lq_S1 n k beta Qm B P) F0) (lq_S2 n k beta A B N P) ->
+  meq n n P (lq_newP n k beta Rm A B N P F0) ->
+  stationary_from_P n k j beta Qm A B C N P = Some (F, d) ->
+  (~ beta == 1 \/ mtrace n (mmul n n n P (mmul n j n C (mtr n j C))) == 0) ->
+  meq k n (mmul k k n (lq_S1 n k beta Qm B P) F) (lq_S2 n k beta A B N P) /\
+  exists P' d', update_values n k j beta Qm Rm A B C N P d = Some (F, P', d') /\
+                meq n n P' P /\ d' == d.
+Proof.
+  intros HP HF0 Hric Hst Hd.
+  unfold stationary_from_P in Hst.
+  destruct (solve k n (lq_S1 n k beta Qm B P) (lq_S2 n k beta A B N P)) as [F1|] eqn:Es; [|discriminate].
+  injection Hst as -> Hdv.
+  pose proof (solve_correct _ _ _ _ _ Es) as HF.
+  split; [exact HF|].
+  unfold update_values. rewrite Es. eexists. eexists. split; [reflexivity|]. split.
+  - rewrite Hric at 3. unfold lq_newP.
+    rewrite (S2F_unique P F0 F HP HF0 HF). reflexivity.
+  - set (tr := mtrace n (mmul n n n P (mmul n j n C (mtr n j C)))) in *.
+    rewrite nmul_Q, nadd_Q. subst d.
+    change (neqb beta none_) with (Qeq_bool beta 1).
+    destruct (Qeq_bool beta 1) eqn:Eb.
+    + apply Qeq_bool_iff in Eb. destruct Hd as [Hd|Hd]; [contradiction|].
+      change (@nzero Q NumQ) with 0. rewrite Hd. ring.
+    + apply Qeq_bool_neq in Eb. rewrite ndiv_Q, nmul_Q, nsub_Q. change (@none_ Q NumQ) with 1.
+      field. intro Hz. apply Eb. lra.
+Qed.
+End Stationary.
+
+(* ====================================================================== *)
+(* which policy sits where in the list, and the whole of compute_sequence (every Num instance) *)
+Section PolicyOrder.
+Context {T : Type} `{Num T}.
+Variables (n k j : nat) (beta : T) (Qm Rm A B C N : list (list T)).
+Notation upd := (update_values n k j beta Qm Rm A B C N).
+Notation recur := (lq_recursion n k j beta Qm Rm A B C N).
+
+(* policies[i] is the F produced by update number i+1, i.e. from the value matrix after i updates *)
+Lemma lq_recursion_policies T_ : forall P0 d0 pols P d,
+  recur T_ P0 d0 [] = Some (pols, P, d) ->
+  length pols = T_ /\
+  forall i, (i < T_)%nat ->
+    exists polsi Pi di Pn dn, recur i P0 d0 [] = Some (polsi, Pi, di) /\
+                              upd Pi di = Some (nth i pols [], Pn, dn).
+Proof.
+  induction T_ as [|T' IH]; intros P0 d0 pols P d Hr.
+  - simpl in Hr. injection Hr as <- <- <-. split; [reflexivity|]. intros i Hi. lia.
+  - rewrite lq_recursion_last in Hr.
+    destruct (recur T' P0 d0 []) as [[[pols' P'] d']|] eqn:Er; [|discriminate].
+    destruct (upd P' d') as [[[F P''] d'']|] eqn:Eu; [|discriminate].
+    injection Hr as <- <- <-.
+    destruct (IH _ _ _ _ _ Er) as [Hlen Hnth].
+    split; [rewrite app_length; simpl; lia|].
+    intros i Hi. destruct (Nat.eq_dec i T') as [->|Hne].
+    + exists pols', P', d', P'', d''. split; [exact Er|].
+      rewrite <- Hlen. rewrite nth_middle. exact Eu.
+    + destruct (Hnth i ltac:(lia)) as [polsi [Pi [di [Pn [dn [E1 E2]]]]]].
+      exists polsi, Pi, di, Pn, dn. split; [exact E1|].
+      rewrite app_nth1 by lia. exact E2.
+Qed.
+
+Theorem compute_sequence_finite_spec T_ Rf x0 ws xs us :
+  compute_sequence_finite n k j beta Qm Rm A B C N T_ Rf x0 ws = Some (xs, us) ->
+  exists pols P d,
+    recur T_ Rf nzero [] = Some (pols, P, d) /\ length pols = T_ /\
+    length xs = S T_ /\ length us = T_ /\ nth 0 xs [] = x0 /\
+    forall t, (t < T_)%nat ->
+      (* the rule of period t is the one produced by update number T - t *)
+      (exists polsi Pi di Pn dn, recur (T_ - 1 - t) Rf nzero [] = Some (polsi, Pi, di) /\
+                                 upd Pi di = Some (nth (T_ - 1 - t) pols [], Pn, dn)) /\
+      nth t us [] = vneg k (mvmul k n (nth (T_ - 1 - t) pols []) (nth t xs [])) /\
+      nth (S t) xs [] = vadd n (vadd n (mvmul n n A (nth t xs [])) (mvmul n k B (nth t us [])))
+                               (mvmul n j C (nth t ws [])).
+Proof.
+  unfold compute_sequence_finite.
+  destruct (recur T_ Rf nzero []) as [[[pols P] d]|] eqn:Er; [|discriminate].
+  intros Hs. exists pols, P, d.
+  destruct (lq_recursion_policies T_ _ _ _ _ _ Er) as [Hlen Hpol].
+  destruct (lq_simulate_spec n k j A B C T_ pols ws x0 xs us Hs) as [_ [_ [Hx [Hu [H0 Ht]]]]].
+  split; [reflexivity|]. split; [exact Hlen|]. split; [exact Hx|]. split; [exact Hu|].
+  split; [exact H0|].
+  intros t Hlt. rewrite Hlen in Ht. destruct (Ht t Hlt) as [E1 E2].
+  split; [apply Hpol; lia|]. split; assumption.
+Qed.
+End PolicyOrder.
+
+Lemma qform_1 (v : list Q) (M : Qmat) : (qform 1 v M == get M 0 0 * (vget v 0 * vget v 0))%Q.
+Proof.
+  change (qform 1 v M) with (bform 1 1 v M v). rewrite bform_Q. simpl. ring.
+Qed.
+
+(* ====================================================================== *)
+(* infinite horizon, the algebraic core: with the stationary P as terminal value, NO control sequence of
+   any length does better than x'Px, and the stationary rule attains it for every T *)
+Section StationaryBound.
+Local Open Scope Q_scope.
+Variables (n k : nat) (beta : Q) (Qm Rm A B N P F : Qmat).
+Hypothesis HQ : msym k Qm.
+Hypothesis HP : msym n P.
+Hypothesis Hbeta : 0 <= beta.
+Hypothesis HF : meq k n (mmul k k n (lq_S1 n k beta Qm B P) F) (lq_S2 n k beta A B N P).
+Hypothesis Hric : meq n n P (lq_newP n k beta Rm A B N P F).
+Hypothesis Hpsd : forall v, 0 <= qform k v (lq_S1 n k beta Qm B P).
+Notation hcost := (horizon_cost n k beta Qm Rm A B N).
+
+Lemma qform_newP x : qform n x (lq_newP n k beta Rm A B N P F) == qform n x P.
+Proof.
+  change (qform n x ?M) with (bform n n x M x).
+  apply bform_proper; try reflexivity. symmetry. exact Hric.
+Qed.
+
+Theorem lq_stationary_lower_bound us : forall x, qform n x P <= hcost P x us.
+Proof.
+  induction us as [|u us IH]; intros x.
+  - simpl. apply Qle_refl.
+  - rewrite (hcost_cons n k beta Qm Rm A B N).
+    pose proof (lq_complete_square_vec n k beta Qm Rm A B N P F HQ HP HF x u) as Sq.
+    rewrite qform_newP in Sq.
+    pose proof (IH (vadd n (mvmul n n A x) (mvmul n k B u))) as L.
+    pose proof (Hpsd (vadd k u (mvmul k n F x))) as Pos.
+    nra.
+Qed.
+
+Theorem lq_stationary_rule_attains T_ : forall x,
+  hcost P x (closed_loop_controls n k A B (repeat F T_) x) == qform n x P.
+Proof.
+  induction T_ as [|T' IH]; intros x.
+  - simpl. reflexivity.
+  - simpl repeat. simpl closed_loop_controls.
+    rewrite (hcost_cons n k beta Qm Rm A B N).
+    set (u := vneg k (mvmul k n F x)).
+    rewrite (IH (vadd n (mvmul n n A x) (mvmul n k B u))).
+    pose proof (lq_complete_square_vec n k beta Qm Rm A B N P F HQ HP HF x u) as Sq.
+    rewrite qform_newP in Sq.
+    assert (Z : qform k (vadd k u (mvmul k n F x)) (lq_S1 n k beta Qm B P) == 0).
+    { change (qform k ?a ?M) with (bform k k a M a).
+      unfold u. rewrite (feedback_cancels n k F x). apply bform_vzero_l. }
+    rewrite Z in Sq. lra.
+Qed.
+End StationaryBound.
+
+(* consequence with terminal value 0: whenever the discounted terminal value under a rule G vanishes
+   (stabilising G), its long-horizon cost is at least x'Px up to any eps *)
+Theorem lq_infinite_horizon_optimal (n k : nat) (beta : Q) (Qm Rm A B N P F G : Qmat) (x : list Q) :
+  msym k Qm -> msym n P -> (0 <= beta)%Q ->
+  meq k n (mmul k k n (lq_S1 n k beta Qm B P) F) (lq_S2 n k beta A B N P) ->
+  meq n n P (lq_newP n k beta Rm A B N P F) ->
+  (forall v, (0 <= qform k v (lq_S1 n k beta Qm B P))%Q) ->
+  (forall eps, (0 < eps)%Q -> exists T0, forall T_, (T0 <= T_)%nat ->
+     (horizon_cost n k beta Qm Rm A B N P x (closed_loop_controls n k A B (repeat G T_) x)
+      - horizon_cost n k beta Qm Rm A B N (mzero n n) x (closed_loop_controls n k A B (repeat G T_) x) <= eps)%Q) ->
+  forall eps, (0 < eps)%Q -> exists T0, forall T_, (T0 <= T_)%nat ->
+     (qform n x P - eps
+      <= horizon_cost n k beta Qm Rm A B N (mzero n n) x (closed_loop_controls n k A B (repeat G T_) x))%Q.
+Proof.
+  intros HQ HP Hb HF Hric Hpsd Hterm eps Heps.
+  destruct (Hterm eps Heps) as [T0 HT0]. exists T0. intros T_ HT.
+  specialize (HT0 T_ HT).
+  pose proof (lq_stationary_lower_bound n k beta Qm Rm A B N P F HQ HP Hb HF Hric Hpsd
+                (closed_loop_controls n k A B (repeat G T_) x) x) as L.
+  lra.
+Qed.
